@@ -84,6 +84,41 @@ def _input_vars(ts, h, t, consts, layer):
     return ins
 
 
+def _resolve_sym_regs(ts, h):
+    out = []
+    for sig, cname in getattr(h, "_sym_regs", None) or []:
+        if isinstance(sig, str):
+            found = ts.signal_by_name(sig)
+            if found is None:
+                raise RuntimeError(f"sym_reg: no unique signal named {sig}")
+            sig = found
+        out.append((sig, cname))
+    return out
+
+
+def _sym_reg_init(ts, h, state, value_of):
+    """harness-declared symbolic reset values (Harness.sym_reg): the flop bits that carry `signal` start at the value of the
+    const harness input instead of their reset value.  value_of(name, width) -> z3 bit-vector."""
+    regs = _resolve_sym_regs(ts, h)
+    if not regs:
+        return state
+    state = dict(state)
+    flops = set(ts.flops)
+    for sig, cname in regs:
+        val = ts.netlist.signals[sig]
+        v = value_of(cname, len(sig))
+        percell = {}
+        for b, net in enumerate(val):
+            if net.is_const or net.cell not in flops:
+                raise RuntimeError(f"sym_reg {sig.name}: bit {b} is not a flip-flop output")
+            percell.setdefault(net.cell, {})[net.bit] = z3.Extract(b, b, v)
+        for cell, bits in percell.items():
+            w = state[cell].size()
+            parts = [bits.get(k, z3.Extract(k, k, state[cell])) for k in range(w)]
+            state[cell] = z3.simplify(z3.Concat(*reversed(parts))) if w > 1 else z3.simplify(parts[0])
+    return state
+
+
 def _check_ports(ts, h):
     names = {sig.name for sig, _ in h._inputs.values()}
     missing = names - set(ts.inputs)
@@ -153,7 +188,18 @@ def simulate(factory, steps, mem_values=None, watch_all=False):
     if mem_values:
         h._mem_values = mem_values
         h.apply_mem_values(mem_values)
-    sim = Simulator(h)
+    symregs = []
+    if getattr(h, "_sym_regs", None):
+        from amaranth.sim.pysim import PySimEngine
+        ts = TS(h, _ports(h))
+        symregs = _resolve_sym_regs(ts, h)
+        sim = Simulator.__new__(Simulator)
+        sim._design = ts.design
+        sim._engine = PySimEngine(ts.design)
+        sim._clocked = set()
+        sim._running = False
+    else:
+        sim = Simulator(h)
     timed = _setup_clocks(sim, h)
     watched = {}
     for tab, pre in ((h._viols, "viol_"), (h._covers, "cover_"), (h._assumes, "assume_"), (h._kfs, "kf_")):
@@ -167,6 +213,9 @@ def simulate(factory, steps, mem_values=None, watch_all=False):
         for t, d in enumerate(steps):
             for name, val in d.items():
                 ctx.set(h._inputs[name][0], val)
+            if t == 0:
+                for sig, cname in symregs:
+                    ctx.set(sig, d[cname])
             trace.append({n: ctx.get(s) for n, s in watched.items()})
             if timed:
                 await ctx.delay(1e-6)
@@ -206,6 +255,9 @@ class Unrolling:
             state = ts.free_state("s0_")
         else:
             state = ts.init_state(_mem_override(ts, q, self.consts))
+            _input_vars(ts, h, 0, self.consts, q.layer)
+            state = _sym_reg_init(ts, h, state, lambda n, w: bv(q.layer[n], w) if q.layer.get(n) is not None
+                                  else self.consts.setdefault(n, z3.BitVec(n, w)))
         self.state0 = state
         okc = z3.BoolVal(True)
         sched = schedule_of(h)
@@ -299,6 +351,9 @@ class FastUnrolling:
         domsets = tm.domsets
         # ---- instantiate
         init = ts.init_state(_mem_override(ts, q, self.consts))
+        _input_vars(ts, h, 0, self.consts, q.layer)
+        init = _sym_reg_init(ts, h, init, lambda n, w: bv(q.layer[n], w) if q.layer.get(n) is not None
+                             else self.consts.setdefault(n, z3.BitVec(n, w)))
         cur = tm.init_values(init)
         self.outs = []
         self.ok = []
@@ -553,6 +608,9 @@ def run_cosim(q, prop, findings):
         for t, d in enumerate(steps):
             for name, val in d.items():
                 ctx.set(h._inputs[name][0], val)
+            if t == 0:
+                for sig, cname in _resolve_sym_regs(ts, h):
+                    ctx.set(sig, d[cname])
             simtrace.append([ctx.get(s) for s in watched])
             if timed:
                 await ctx.delay(1e-6)
@@ -563,7 +621,7 @@ def run_cosim(q, prop, findings):
     t0 = time.time()
     sim.run()
     tm = Template(ts, watched, schedule_of(h))
-    cur = tm.init_values(ts.init_state())
+    cur = tm.init_values(_sym_reg_init(ts, h, ts.init_state(), lambda n, w: bv(steps[0][n], w)))
     mism = []
     events = 0
     pmap = {id(sig): pn for pn, sig in ts.port_names([sg for sg, _ in h._inputs.values()]).items()}
